@@ -300,8 +300,12 @@ class Output(object):
                     s += "%-*s| " % (desc_lengths[w], descs[w][i])
                 else:
                     # Don't use .4g because this will give unnecessary descimals for
-                    # location ids
-                    s += "%-*g| " % (desc_lengths[w], descs[w][i])
+                    # location ids. Whole numbers (e.g. 7-digit location ids) are
+                    # written in full, since %g only keeps 6 significant digits
+                    if np.isfinite(descs[w][i]) and float(descs[w][i]) == int(descs[w][i]):
+                        s += "%-*d| " % (desc_lengths[w], int(descs[w][i]))
+                    else:
+                        s += "%-*g| " % (desc_lengths[w], descs[w][i])
             for f in range(y.shape[1]):
                 s += "%-*.4g| " % (lengths[f], y[i, f])
             s += "\n"
